@@ -319,88 +319,105 @@ def strip(prog):
     return {k: prog[k] for k in ("kind", "name", "params", "body", "sig_in")}
 
 
+BATCH = 2500
+
+
+def merge(acc, res, base, progs, keep_samples):
+    for k in ("ok", "claims", "programs_with_claims", "oracle_runs"):
+        acc[k] = acc.get(k, 0) + res[k]
+    for k in ("status", "claim_kinds"):
+        d = acc.setdefault(k, {})
+        for a, b in res[k].items():
+            d[a] = d.get(a, 0) + b
+    for k in ("disagreements", "failing", "unmapped", "corpus_fail"):
+        acc.setdefault(k, []).extend(res[k][:50])
+    acc["n_disagreements"] = acc.get("n_disagreements", 0) + len(res["disagreements"])
+    acc["n_failing"] = acc.get("n_failing", 0) + len(res["failing"])
+    sample = acc.setdefault("sample", [])
+    for i in sorted(res["parsed"]):
+        if len(sample) >= keep_samples:
+            break
+        fs = [f for f in findings_of(res["parsed"][i][3]) if f[1] in VARIABLE_KINDS]
+        if fs:
+            sample.append({"source": progs[i]["source"], "claims": fs})
+
+
 def run(ctx, proofs):
     quick = ctx.tier == "quick"
     n = 2000 if quick else 50000
     nval, nrep = 32, 8
-    progs = make_cases(ctx, n)
-    res = evaluate(ctx, progs, nval, nrep)
-    feats = {}
-    for p in progs:
-        for f in p.get("features", []):
-            feats[f] = feats.get(f, 0) + 1
-    alph = {}
-    for p in progs:
-        alph[p.get("alphabet", "corpus")] = alph.get(p.get("alphabet", "corpus"), 0) + 1
+    res = {}
+    feats, alph = {}, {}
+    total = 0
+    first = True
+    while total < n or first:
+        k = min(BATCH, n - total)
+        progs = make_cases(ctx, k) if first else make_cases(ctx, k)[len(load_corpus()):]
+        first = False
+        total += k
+        for p in progs:
+            for f in p.get("features", []):
+                feats[f] = feats.get(f, 0) + 1
+            alph[p.get("alphabet", "corpus")] = alph.get(p.get("alphabet", "corpus"), 0) + 1
+        merge(res, evaluate(ctx, progs, nval, nrep), total - k, progs, 3)
+        if res["n_failing"] >= 5:
+            break
+    res["generated"] = sum(alph.values())
+    finish(ctx, proofs, res, feats, alph, nval, nrep)
 
-    # known findings: replay the witnesses
-    known = {r["id"]: r for r in ctx.known}
-    reported = 0
-    for f in res["failing"]:
-        if f["kf_ssa_key_collision"] and "C09-ssa-key-collision" in known:
-            ctx.known_finding("C09-ssa-key-collision", known["C09-ssa-key-collision"]["what"])
-            continue
-        if reported < 5:
-            fd = f["finding"]
-            ctx.violation("false claim %s %s about `%s`: replacing the flagged value by %s changes effect #%d (%s -> %s)"
-                          % (fd[0], fd[1], fd[2], f["oracle"]["replacement"], f["oracle"]["first_difference_at_event"],
-                             f["oracle"]["base_event"], f["oracle"]["perturbed_event"]),
-                          {"input": f["source"], "prog": f["prog"], "impl": fd, "spec": f["oracle"]})
-        reported += 1
+
+def finish(ctx, proofs, res, feats, alph, nval, nrep):
+    # C09 has no `known` finding: D20 (SSA key collision) was repaired in ssa_impl.rs (51769f1) and
+    # the single-name-constraint defect in side_effect_analysis.rs (7b80e23); both witnesses are in
+    # corpus/C09 and any false claim is a violation.
+    for f in res["failing"][:5]:
+        fd = f["finding"]
+        ctx.violation("false claim %s %s about `%s`: replacing the flagged value by %s changes effect #%d (%s -> %s)"
+                      % (fd[0], fd[1], fd[2], f["oracle"]["replacement"], f["oracle"]["first_difference_at_event"],
+                         f["oracle"]["base_event"], f["oracle"]["perturbed_event"]),
+                      {"input": f["source"], "prog": f["prog"], "impl": fd, "spec": f["oracle"],
+                       "ssa_key_collision": f["kf_ssa_key_collision"]})
     for c in res["corpus_fail"][:3]:
-        ctx.violation("regression corpus: %s: %s" % (c["corpus"], c["problem"]), {"input": c.get("source"), "impl": c["problem"], "spec": "corpus expectation"})
-    if "C09-ssa-key-collision" in known and not any(f["kf_ssa_key_collision"] for f in res["failing"]):
-        # witness replay (the generator may not have hit it)
-        w = known["C09-ssa-key-collision"].get("witness")
-        if w:
-            wp = w["prog"]
-            wp["sig_in"] = [tuple(x) for x in wp["sig_in"]]
-            wp["source"] = c09gen.render(wp)
-            sub = evaluate(ctx, [wp], nval, nrep)
-            if any(f["kf_ssa_key_collision"] for f in sub["failing"]):
-                ctx.known_finding("C09-ssa-key-collision", known["C09-ssa-key-collision"]["what"])
-    degenerate = res["ok"] < 0.5 * len(progs) or res["programs_with_claims"] < 0.2 * max(1, res["ok"])
+        ctx.violation("regression corpus: %s: %s" % (c["corpus"], c["problem"]),
+                      {"input": c.get("source"), "impl": c["problem"], "spec": "corpus expectation"})
+    degenerate = res["ok"] < 0.5 * res["generated"] or res["programs_with_claims"] < 0.2 * max(1, res["ok"])
     if not ctx.violations:
         if res["disagreements"]:
             d = res["disagreements"][0]
             ctx.violation("correspondence Model.Taint/SideEffect vs taint_analysis.rs/constraint_analysis.rs/side_effect_analysis.rs broken "
                           "(%d of %d definitions; first differs in %s: impl only %s, model only %s); no false claim was found by the oracle"
-                          % (len(res["disagreements"]), res["ok"], d["sections"], d["impl_only"], d["model_only"]),
+                          % (res["n_disagreements"], res["ok"], d["sections"], d["impl_only"], d["model_only"]),
                           {"broken": "correspondence taint (Model.VarUse / Model.Taint / Model.SideEffect)", "first": d,
-                           "count": len(res["disagreements"])}, no_input=True)
+                           "count": res["n_disagreements"]}, no_input=True)
         elif res["unmapped"]:
             ctx.violation("oracle could not map %d findings to an assignment of the source" % len(res["unmapped"]),
                           {"broken": "oracle mapping finding -> source statement", "first": res["unmapped"][0]}, no_input=True)
         elif degenerate:
-            ctx.violation("generator degenerate: %d of %d definitions analysed, %d with claims" % (res["ok"], len(progs), res["programs_with_claims"]),
+            ctx.violation("generator degenerate: %d of %d definitions analysed, %d with claims"
+                          % (res["ok"], res["generated"], res["programs_with_claims"]),
                           {"broken": "generator", "status": res["status"]}, no_input=True)
         elif proofs["failures"]:
             ctx.violation("proof obligations of C09 no longer check: " + "; ".join(proofs["failures"])[:500],
                           {"broken": "props/C09.v", "failures": proofs["failures"]}, no_input=True)
-    sample = []
-    for i in sorted(res["parsed"])[:400]:
-        fs = [f for f in findings_of(res["parsed"][i][3]) if f[1] in VARIABLE_KINDS]
-        if fs and len(sample) < 3:
-            sample.append({"source": progs[i]["source"], "claims": fs})
     ctx.coverage.update({
         "evaluations": res["ok"] + res["oracle_runs"],
-        "definitions_generated": len(progs),
+        "definitions_generated": res["generated"],
         "definitions_analysed_and_compared": res["ok"],
         "harness_status": res["status"],
         "claims_checked_by_oracle": res["claims"],
         "claim_kinds": res["claim_kinds"],
         "oracle_runs": res["oracle_runs"],
-        "oracle_runs_per_claim": "%d valuations x %d replacement values (valuations on which the flagged statement is not executed are skipped: the runs coincide)" % (nval, nrep),
+        "oracle_runs_per_claim": "%d valuations x %d replacement values (valuations on which the flagged statement is not "
+                                 "executed are skipped: the two runs coincide)" % (nval, nrep),
         "distinct_nontrivial": res["programs_with_claims"],
         "rule": "a definition counts as non-trivial when the implementation made at least one claim about a local or a parameter "
                 "(CS0006/CS0007/CS0008) and the oracle executed it; evaluations = definitions compared + oracle runs",
         "exhaustive": False,
-        "samples": sample,
+        "samples": res.get("sample", []),
         "feature_histogram": feats,
         "alphabets": alph,
-        "disagreements_model_vs_impl": len(res["disagreements"]),
-        "false_claims_found": len(res["failing"]),
-        "false_claims_in_known_class": sum(1 for f in res["failing"] if f["kf_ssa_key_collision"]),
+        "disagreements_model_vs_impl": res["n_disagreements"],
+        "false_claims_found": res["n_failing"],
         "open_statements": OPEN_STATEMENTS,
     })
     ctx.assumptions += ASSUMPTIONS
